@@ -23,8 +23,8 @@ import sys
 import tempfile
 import traceback
 
-from vf import core
-from vf.steps import StepBudget, Steps  # noqa: F401, snapshot
+from vf import core, snapshot
+from vf.steps import StepBudget, Steps  # noqa: F401
 
 PROP = 'C11'
 LEVEL = 'fault_enumeration'
